@@ -143,4 +143,122 @@ theorem min_attained (s : SI) (m : Int) (hs : s.WF) (hnb : s.bottom = false) (h 
       obtain ⟨hqw, hqb, _, _⟩ := hprop p' (List.mem_cons_of_mem _ hp')
       exact ⟨p'.lb, hback p' (List.mem_cons_of_mem _ hp') _ (mem_lb p' hqw.1 hqb), h3.symm⟩
 
+theorem fmax_cases (m : Int) (q : Int × Int) : fmax m q = m ∨ fmax m q = q.2 := by
+  unfold fmax; split_ifs <;> simp
+
+theorem foldl_max_attained (rest : List (Int × Int)) : ∀ (m : Int),
+    rest.foldl fmax m = m ∨ ∃ p, p ∈ rest ∧ rest.foldl fmax m = p.2 := by
+  induction rest with
+  | nil => intro m; exact Or.inl rfl
+  | cons q qs ih =>
+    intro m
+    simp only [List.foldl_cons]
+    rcases ih (fmax m q) with h | ⟨p, hp, h⟩
+    · rcases fmax_cases m q with f | f
+      · left; rw [h, f]
+      · right; exact ⟨q, List.mem_cons_self, by rw [h, f]⟩
+    · right; exact ⟨p, List.mem_cons_of_mem _ hp, h⟩
+
+/-- the upper bound of an aligned interval is a member -/
+theorem mem_ub (s : SI) (hs : s.WF) (hnb : s.bottom = false) (hal : s.Aligned) : s.mem s.ub := by
+  obtain ⟨_, hl, hu, hst⟩ := hs
+  rw [mem_iff _ _ hl hu]
+  refine ⟨hnb, hu, Nat.le_refl _, ?_⟩
+  unfold SI.Aligned SI.span at hal
+  rw [modSub_nat _ _ _ hu hl] at hal
+  by_cases hz : s.stride = 0
+  · rw [if_pos hz]
+    have := hst.1 hz
+    rw [this, cd_self]
+  · rw [if_neg hz]
+    rcases hal with h | h
+    · exact absurd h hz
+    · exact h
+
+/-- **the unsigned maximum of an aligned interval is attained** (for unaligned ones it is not: `max_unaligned_wrong`) -/
+theorem max_attained (s : SI) (m : Int) (hs : s.WF) (hnb : s.bottom = false) (hal : s.Aligned)
+    (h : s.max false = .ok (some m)) : ∃ x, s.mem x ∧ (x : Int) = m := by
+  have hwf := hs
+  obtain ⟨h0, hl, hu, hst⟩ := hs
+  have hub := mem_ub s hwf hnb hal
+  unfold SI.max at h
+  rw [hnb] at h
+  simp only [Bool.false_eq_true, if_false, bind, Except.bind] at h
+  by_cases hwrap : s.ub < s.lb
+  · have hsplit := ssplit_wrap s hwf hwrap
+    simp only [] at hsplit
+    generalize hK : (2 ^ s.bits - 1 - s.lb) - (2 ^ s.bits - 1 - s.lb) % s.stride = K at hsplit
+    have hsne : s.stride ≠ 0 := by intro hh; have := hst.1 hh; omega
+    have hK1 : s.stride ∣ K := by rw [← hK]; exact Nat.dvd_sub_mod _
+    have hK3 : K ≤ 2 ^ s.bits - 1 - s.lb := by rw [← hK]; exact Nat.sub_le _ _
+    have hlk : s.lb + K < 2 ^ s.bits := by omega
+    have hspan : cd (2 ^ s.bits) s.lb s.ub = s.ub + 2 ^ s.bits - s.lb := by unfold cd; split_ifs <;> omega
+    have hAb := new_bounds s.bits s.stride s.lb (s.lb + K) hl hlk (by
+      rintro ⟨h1, _⟩
+      rw [succ_mod_cases _ _ hlk] at h1
+      split_ifs at h1 <;> omega)
+    -- the last member before the pole
+    have hmemK : s.mem (s.lb + K) := by
+      rw [mem_iff _ _ hl hu]
+      have hcd : cd (2 ^ s.bits) s.lb (s.lb + K) = K := by unfold cd; split_ifs <;> omega
+      rw [hcd, hspan, if_neg hsne]
+      exact ⟨hnb, hlk, by omega, Nat.mod_eq_zero_of_dvd hK1⟩
+    by_cases hbr : K + s.stride > cd (2 ^ s.bits) s.lb s.ub
+    · rw [if_pos hbr] at hsplit
+      have hb : s.unsignedBounds = .ok [((s.lb : Int), ((s.lb + K : Nat) : Int))] := by
+        unfold SI.unsignedBounds; rw [hsplit]
+        simp only [bind, Except.bind, pure, Except.pure, List.map_cons, List.map_nil, hAb.1, hAb.2]
+      rw [hb] at h
+      simp only [pure, Except.pure, List.foldl_nil] at h
+      exact ⟨s.lb + K, hmemK, by cases h; rfl⟩
+    · rw [if_neg hbr] at hsplit
+      have hbLeq : (s.lb + K + s.stride) % 2 ^ s.bits = s.lb + K + s.stride - 2 ^ s.bits := by
+        have hK2 : 2 ^ s.bits - 1 - s.lb < K + s.stride := by
+          have := Nat.mod_lt (2 ^ s.bits - 1 - s.lb) (Nat.pos_of_ne_zero hsne)
+          have := Nat.mod_le (2 ^ s.bits - 1 - s.lb) s.stride
+          omega
+        have : s.lb + K + s.stride = (s.lb + K + s.stride - 2 ^ s.bits) + 2 ^ s.bits := by omega
+        rw [this, Nat.add_mod_right, Nat.mod_eq_of_lt (by omega)]
+        omega
+      rw [hbLeq] at hsplit
+      generalize hbl : s.lb + K + s.stride - 2 ^ s.bits = bl at hsplit
+      have hblt : bl < 2 ^ s.bits := by omega
+      have hBb := new_bounds s.bits s.stride bl s.ub hblt hu (by
+        rintro ⟨h1, _⟩
+        rw [succ_mod_cases _ _ hu] at h1
+        split_ifs at h1 <;> omega)
+      have hb : s.unsignedBounds = .ok [((s.lb : Int), ((s.lb + K : Nat) : Int)), ((bl : Int), (s.ub : Int))] := by
+        unfold SI.unsignedBounds; rw [hsplit]
+        simp only [bind, Except.bind, pure, Except.pure, List.map_cons, List.map_nil, hAb.1, hAb.2, hBb.1, hBb.2]
+      rw [hb] at h
+      simp only [pure, Except.pure, List.foldl_cons, List.foldl_nil] at h
+      have hm : m = if (s.ub : Int) > ((s.lb + K : Nat) : Int) then (s.ub : Int) else ((s.lb + K : Nat) : Int) := by cases h; rfl
+      split_ifs at hm
+      · exact ⟨s.ub, hub, hm.symm⟩
+      · exact ⟨s.lb + K, hmemK, hm.symm⟩
+  · have hsplit : s.ssplit = .ok [s.renorm] := by unfold SI.ssplit; rw [if_neg hwrap]; rfl
+    -- bounds of the copy
+    have hr : s.renorm.ub = s.ub := by
+      unfold SI.renorm
+      rw [hnb]
+      simp only [Bool.false_eq_true, if_false]
+      rw [new_eq, imod_of_lt _ _ hl, imod_of_lt _ _ hu]
+      split
+      · rfl
+      · split
+        · rename_i h1 h2
+          have h3 := h2.1
+          rw [succ_mod_cases _ _ hu] at h3
+          split_ifs at h3
+          · omega
+          · show 2 ^ s.bits - 1 = s.ub
+            omega
+        · rfl
+    have hb : s.unsignedBounds = .ok [((s.renorm.lb : Int), (s.ub : Int))] := by
+      unfold SI.unsignedBounds; rw [hsplit]
+      simp only [bind, Except.bind, pure, Except.pure, List.map_cons, List.map_nil, hr]
+    rw [hb] at h
+    simp only [pure, Except.pure, List.foldl_nil] at h
+    exact ⟨s.ub, hub, by cases h; rfl⟩
+
 end Claripy.VSA
